@@ -68,4 +68,33 @@ theorem writeString_simple (values : Str → Option Str) (f : Nat) (ts : List To
 theorem write_simple (values : Str → Option Str) (ts : List Tok) (hs : simple values ts = true) :
     write values ts = ts := writeString_simple values _ ts (by omega) hs
 
+
+/-- adequacy of the loop bound: any two bounds above the number of tokens give the same result, so `write`'s
+`length + 1` never cuts the output short -/
+theorem writeString_fuel (values : Str → Option Str) (f g : Nat) (ts : List Tok) (hf : ts.length < f) (hg : ts.length < g) :
+    writeString values f ts = writeString values g ts := by
+  induction f generalizing g ts with
+  | zero => omega
+  | succ f ih =>
+    cases g with
+    | zero => omega
+    | succ g =>
+      cases ts with
+      | nil => simp [writeString]
+      | cons t ts =>
+        simp only [List.length_cons] at hf hg
+        cases t with
+        | start n a =>
+          unfold writeString
+          cases values n with
+          | none => simp only; rw [ih g ts (by omega) (by omega)]
+          | some v =>
+            simp only
+            have := skipElem_length 0 ts
+            rw [ih g (skipElem 0 ts) (by omega) (by omega)]
+        | stop n => simp only [writeString]; rw [ih g ts (by omega) (by omega)]
+        | text s => simp only [writeString]; rw [ih g ts (by omega) (by omega)]
+        | comment s => simp only [writeString]; rw [ih g ts (by omega) (by omega)]
+        | other s => simp only [writeString]; rw [ih g ts (by omega) (by omega)]
+
 end Scalibr.PomTok
